@@ -99,7 +99,8 @@ def _gen_ovni_h(dst, evbuf=None):
 
 
 WRAPS = ["open", "write", "close", "mkdir", "stat", "fopen", "remove", "rmdir",
-         "opendir", "readdir", "closedir", "clock_gettime", "getenv", "abort"]
+         "opendir", "readdir", "closedir", "clock_gettime", "getenv", "abort",
+         "rename", "unlink", "fsync", "fdatasync"]
 
 SMALL_EVBUF = 4096
 
